@@ -53,4 +53,12 @@ for fn,kind,ss,texts in todo:
     if ok: out2.append({"function":fn,"kind":kind,"count":len(ss),"reason":"; ".join(rs)})
 print("manual:",len(out2),"missing:",len(missing))
 for m in missing: print("  MISSING",m)
+OPERAND_VIA = {
+    ("brush_core::variables::ShellVariable::apply_value_transforms", "String::replace_range"): ["len_utf8"],
+    ("brush_core::expansion::WordExpander::expand_word_piece", "String::truncate"): ["trim_end_matches"],
+}
+for e in out + out2:
+    k = (e["function"], e["kind"])
+    if k in OPERAND_VIA:
+        e["operand_via"] = OPERAND_VIA[k]
 json.dump({"_comment":"Reviewed panic-capable sites that no local guard idiom discharges. Keyed by (function, kind) with the number of sites reviewed; a new site of the same kind in the same function exceeds the count and is reported.","entries":sorted(out+out2,key=lambda e:(e['function'],e['kind']))}, open('/verif/rules/c01_table.json','w'), indent=1)
